@@ -76,7 +76,9 @@ fn checked<E, F: FnOnce() -> Result<Integer, E>>(f: F) -> Value {
 pub fn table<W: Write>(out: &mut W) {
     let max = u128::MAX;
     let mags: Vec<u128> = vec![
-        0, 1, 2, 3, 5, 7, 10, 9999, 10000, 1u128 << 64, max / 2, max / 2 + 1, max / 3, max - 2, max - 1, max,
+        0, 1, 2, 3, 5, 7, 10, 9999, 10000, (1u128 << 64) - 1, 1u128 << 64, (1u128 << 64) + 1,
+        10u128.pow(19), (1u128 << 127) - 1, 1u128 << 127, (1u128 << 127) + 1, max / 2, max / 3, 10u128.pow(38),
+        max - 2, max - 1, max,
     ];
     let mut ops: Vec<Integer> = vec![];
     for m in mags.iter() {
